@@ -60,7 +60,68 @@ def _eligible(var, lam, fn):
         return "expr"
     if len(rets) == 1 and stmts and stmts[-1] is rets[0] and isinstance(rets[0].get("value"), dict):
         return "tail"        # statements followed by one final 'return expr;': inlined where the result is assigned (x = f(...);)
+    sel = _as_select(lam)
+    if sel is not None:
+        # const locals; if(c) return A; return B;   ==   return c ? A : B;   (rewritten in place, then inlined as an expression)
+        lam["body"] = {"k": "CompoundStmt", "l": lam["body"].get("l"), "c": [sel]}
+        return "expr"
     return None
+
+
+def _as_select(lam):
+    """body of the form  [const T v = e;]*  if(c) return A; [else] return B;   ->   the statement 'return c ? A : B;' with the
+    locals substituted by their initialisers (they are single-assignment and their initialisers are effect free)"""
+    stmts = lam["body"].get("c", [])
+    if len(stmts) < 2:
+        return None
+    decls = {}
+    i = 0
+    while i < len(stmts) and stmts[i].get("k") == "DeclStmt":
+        for d in stmts[i].get("decls", []):
+            if d.get("k") != "Var" or not isinstance(d.get("init"), dict) or not _effect_free_calls_ok(d["init"]):
+                return None
+            decls[d["did"]] = d["init"]
+        i += 1
+    rest = stmts[i:]
+    def only_return(b):
+        b = b.get("c", [b]) if b.get("k") == "CompoundStmt" else [b]
+        return b[0] if len(b) == 1 and b[0].get("k") == "ReturnStmt" and isinstance(b[0].get("value"), dict) else None
+    if not rest or rest[0].get("k") != "IfStmt":
+        return None
+    iff = rest[0]
+    a = only_return(iff["then"])
+    b = None
+    if isinstance(iff.get("else"), dict) and len(rest) == 1:
+        b = only_return(iff["else"])
+    elif iff.get("else") is None and len(rest) == 2:
+        b = only_return(rest[1])
+    if a is None or b is None:
+        return None
+    # any local written after its declaration disqualifies the rewriting
+    for x in walk(lam["body"]):
+        if x.get("k") in ("CompoundAssignOperator",) or (x.get("k") == "BinaryOperator" and x.get("op") == "=") or (x.get("k") == "UnaryOperator" and x.get("op") in ("++", "--", "post++", "post--", "pre++", "pre--")):
+            return None
+    cond = {"k": "ConditionalOperator", "l": iff.get("l"), "t": a["value"].get("t"), "c": [copy.deepcopy(iff["cond"]), copy.deepcopy(a["value"]), copy.deepcopy(b["value"])]}
+    for _ in range(len(decls) + 1):
+        cond = _subst(cond, decls)
+    return {"k": "ReturnStmt", "l": iff.get("l"), "value": cond}
+
+
+def _effect_free_calls_ok(e):
+    """effect free, allowing calls of const members / std math (a local such as floor((p - m) / s))"""
+    for x in walk(e):
+        k = x.get("k")
+        if k in ("CompoundAssignOperator", "CXXThrowExpr", "LambdaExpr", "CXXNewExpr", "CXXDeleteExpr"):
+            return False
+        if k == "BinaryOperator" and x.get("op") == "=":
+            return False
+        if k == "UnaryOperator" and x.get("op") in ("++", "--", "post++", "post--", "pre++", "pre--"):
+            return False
+        if k == "CallExpr" and not (x.get("callee", "").startswith("std::") or x.get("callee", "") in ("floor", "ceil", "abs", "fabs", "sqrt")):
+            return False
+        if k == "CXXMemberCallExpr" and not x.get("cconst"):
+            return False
+    return True
 
 
 def _remap(node, mapping):
@@ -184,6 +245,20 @@ class _Inliner:
         blk["c"][-1] = a
         return blk
 
+    def tail_for_decl(self, declstmt, var, call, lam):
+        """`T v = f(args);`  ->  the statements  { P p = arg...; <body without its final return>; T v = <returned expression>; }
+        spliced into the enclosing sequence (declaration ids of the copied body are fresh, so nothing can clash)."""
+        blk = self.block_for(call, {"params": lam["params"], "body": lam["body"], "captures": lam.get("captures", [])})
+        if blk is None or not blk["c"] or blk["c"][-1].get("k") != "ReturnStmt":
+            return None
+        d = copy.deepcopy(declstmt)
+        for v in d.get("decls", []):
+            if v.get("did") == var.get("did"):
+                v["init"] = blk["c"][-1]["value"]
+        blk["c"][-1] = d
+        blk["splice"] = True
+        return blk
+
     def expr_for(self, call, lam):
         args = call["c"][2:]
         params = lam["params"]
@@ -233,12 +308,28 @@ class _Inliner:
                     if isinstance(v, dict):
                         n[key] = rewrite(v, key in ("then", "else", "body") and k in ("IfStmt", "ForStmt", "WhileStmt", "DoStmt", "CXXForRangeStmt"))
                 if isinstance(n.get("c"), list):
-                    n["c"] = [rewrite(x, k == "CompoundStmt") if isinstance(x, dict) else x for x in n["c"]]
+                    out_c = []
+                    for x in n["c"]:
+                        r_ = rewrite(x, k == "CompoundStmt") if isinstance(x, dict) else x
+                        if k == "CompoundStmt" and isinstance(r_, dict) and r_.get("splice"):
+                            out_c.extend(r_["c"])
+                        else:
+                            out_c.append(r_)
+                    n["c"] = out_c
                 if isinstance(n.get("decls"), list):
                     n["decls"] = [rewrite(x, False) if isinstance(x, dict) else x for x in n["decls"]]
                 if isinstance(n.get("handlers"), list):
                     n["handlers"] = [rewrite(x, False) if isinstance(x, dict) else x for x in n["handlers"]]
                 core = strip(n)
+                if stmt_pos and n.get("k") == "DeclStmt" and len(n.get("decls", [])) == 1 and n["decls"][0].get("k") == "Var" and isinstance(n["decls"][0].get("init"), dict):
+                    rhs = strip(n["decls"][0]["init"])
+                    while rhs.get("k") in ("CXXConstructExpr", "MaterializeTemporaryExpr", "CXXBindTemporaryExpr", "ExprWithCleanups") and len(rhs.get("c", [])) == 1:
+                        rhs = strip(rhs["c"][0])
+                    d2 = _is_lambda_call(rhs, lambdas)
+                    if d2 is not None and lambdas[d2][2] == "tail":
+                        r = self.tail_for_decl(n, n["decls"][0], rhs, lambdas[d2][1])
+                        if r is not None:
+                            return r
                 if stmt_pos and core.get("k") in ("BinaryOperator", "CXXOperatorCallExpr") and core.get("op") == "=":
                     rhs = strip(core["c"][1] if core["k"] == "BinaryOperator" else core["c"][2]) if len(core.get("c", [])) >= 2 else {}
                     while rhs.get("k") in ("CXXConstructExpr", "MaterializeTemporaryExpr", "CXXBindTemporaryExpr", "ExprWithCleanups") and len(rhs.get("c", [])) == 1:
@@ -357,7 +448,8 @@ def inline_new_helpers(prog, inventory, repo_prefix):
                     f, pseudo, kind = new[core["ckey"]]
                     me = strip(core["c"][0])
                     base = strip(me["c"][0]) if me.get("k") == "MemberExpr" and me.get("c") else None
-                    if f.get("static") or (base is not None and base.get("k") == "CXXThisExpr" and g.get("cls") == f.get("cls")):
+                    # called on the caller's own object (the helper may live in a base class of the caller's class)
+                    if f.get("static") or (base is not None and base.get("k") == "CXXThisExpr"):
                         return new[core["ckey"]], core.get("c", [])[1:]
                 return None, None
 
@@ -368,12 +460,41 @@ def inline_new_helpers(prog, inventory, repo_prefix):
                     if isinstance(v, dict):
                         n[key] = rewrite(v, key in ("then", "else", "body") and k in ("IfStmt", "ForStmt", "WhileStmt", "DoStmt", "CXXForRangeStmt"))
                 if isinstance(n.get("c"), list):
-                    n["c"] = [rewrite(x, k == "CompoundStmt") if isinstance(x, dict) else x for x in n["c"]]
+                    out_c = []
+                    for x in n["c"]:
+                        r_ = rewrite(x, k == "CompoundStmt") if isinstance(x, dict) else x
+                        if k == "CompoundStmt" and isinstance(r_, dict) and r_.get("splice"):
+                            out_c.extend(r_["c"])
+                        else:
+                            out_c.append(r_)
+                    n["c"] = out_c
                 if isinstance(n.get("decls"), list):
                     n["decls"] = [rewrite(x, False) if isinstance(x, dict) else x for x in n["decls"]]
                 if isinstance(n.get("handlers"), list):
                     n["handlers"] = [rewrite(x, False) if isinstance(x, dict) else x for x in n["handlers"]]
                 core = strip(n)
+                # x = helper(args);   /   T v = helper(args);   with a helper made of statements and one final return
+                tgt_call = None
+                if stmt_pos and n.get("k") == "DeclStmt" and len(n.get("decls", [])) == 1 and n["decls"][0].get("k") == "Var" and isinstance(n["decls"][0].get("init"), dict):
+                    tgt_call = strip(n["decls"][0]["init"])
+                elif stmt_pos and core.get("k") in ("BinaryOperator", "CXXOperatorCallExpr") and core.get("op") == "=" and len(core.get("c", [])) >= 2:
+                    tgt_call = strip(core["c"][1] if core["k"] == "BinaryOperator" else core["c"][2])
+                if tgt_call is not None:
+                    while tgt_call.get("k") in ("CXXConstructExpr", "MaterializeTemporaryExpr", "CXXBindTemporaryExpr", "ExprWithCleanups") and len(tgt_call.get("c", [])) == 1:
+                        tgt_call = strip(tgt_call["c"][0])
+                    hit2, args2 = site(tgt_call)
+                    if hit2 is not None and hit2[2] == "tail" and hit2[0] is not g:
+                        f2, pseudo2, _k2 = hit2
+                        fake2 = {"c": [None, None] + list(args2), "l": tgt_call.get("l"), "t": tgt_call.get("t")}
+                        body2 = pseudo2
+                        if f2.get("file") != g.get("file"):
+                            inl.site += 1
+                            mapping2 = {d: _FRESH * 7 * inl.site + (d if isinstance(d, int) else hash(d) % _FRESH) for d in _all_dids(f2["body"]) | {p["did"] for p in f2.get("params", [])}}
+                            body2 = {"params": [dict(p, did=mapping2[p["did"]]) for p in f2.get("params", [])], "body": _remap(f2["body"], mapping2), "captures": []}
+                        r2 = inl.tail_for_decl(n, n["decls"][0], fake2, body2) if n.get("k") == "DeclStmt" else inl.tail_for(n, fake2, body2)
+                        if r2 is not None:
+                            r2["inlined_helper"] = f2["qn"]
+                            return r2
                 hit, args = site(core)
                 if hit is None:
                     return n
